@@ -366,6 +366,26 @@ def run_b(case, ctx):
     ok, _ = ctx.call(dict(base, hook="on_epoch_end"), cb.on_epoch_end, e)
     if not ok:
       return
+  # training continued with the same callback (a second fit): the counter goes on, nothing may fall back
+  if case["idx"] % 3 == 0:
+    ok, _ = ctx.call(dict(base, hook="on_train_begin_again"), cb.on_train_begin)
+    if ok:
+      ctx.count("B.second_fit_histories")
+      vals = read()
+      if vals and last is not None and min(vals) < last - 1e-7:
+        ctx.violation(dict(base, kind="factor_decreased", where="second_fit"),
+                      "second on_train_begin with the same scheduler: factor %r -> %r" % (last, min(vals)), {"trace": trace[-4:]})
+      for b in range(2):
+        ok, _ = ctx.call(dict(base, hook="on_train_batch_begin"), cb.on_train_batch_begin, b)
+        if not ok:
+          break
+        vals = read()
+        if vals and last is not None and min(vals) < last - 1e-7:
+          ctx.violation(dict(base, kind="factor_decreased", where="second_fit"),
+                        "second fit, batch %d: factor %r -> %r" % (b, last, min(vals)), {"trace": trace[-4:]})
+          break
+        if vals:
+          last = max(last if last is not None else 0.0, min(vals))
   # the factor the model actually uses == the logged one (forward pass at the end)
   ctx.sample({"part": "B", "schedule": {k: case[k] for k in ("family", "start", "finish", "exponent", "update_freq", "freq_type", "initial", "epochs", "steps")},
               "trace_head": trace[:8], "n_knob_quantizers": len(everything), "n_driven": len(mine)})
